@@ -38,7 +38,8 @@ JudgeUnit(B, U) ==
       partOf(c) == may[CHOOSE j \in 1..Len(may) : may[j][1] = c]
       asc   == \A k \in 1..(Len(got) - 1) : got[k] < got[k + 1]
       okU   == asc /\ (\A j \in 1..Len(need) : \E k \in 1..Len(got) : got[k] = need[j][1]) /\ (\A k \in 1..Len(got) : isB(got[k]))
-  IN Fails(<<
+  IN IF U.unsplit = 1 THEN <<"P:C08:deep-all-split">> ELSE
+     Fails(<<
      <<"P:C08:upper-coords", okU>>,
      <<"P:C08:partition-members", okU => \A k \in 1..Len(got) :
             LET pt == partOf(got[k])
